@@ -325,6 +325,7 @@ type vEnv struct {
 	nNPR                          int
 	cls, preMissing               int
 	preAnswerOwed                 bool
+	timeoutCurrent, preWatch      bool
 }
 
 // kf1: carve-out of known finding KF-1 (DESIGN §7): the proposal of the current height and
